@@ -26,11 +26,26 @@ def gen_cases(tier, seed):
                 yield "tx", {"n_in": n_in, "n_out": n_out, "salt": rng.getrandbits(40), "all_idx": True}
     for i in range(3000 if q else 40000):
         yield "tx", {"n_in": rng.randrange(1, 9), "n_out": rng.randrange(1, 9), "salt": rng.getrandbits(40), "all_idx": False}
+    # histories: the SAME process signs related transactions one after the other (fee bump / RBF, re-signing with
+    # another sighash type ...): one component changes per step while all others - in particular the prevouts - stay
+    for i in range(60 if q else 1500):
+        yield "history", {"n_in": rng.randrange(1, 5), "n_out": rng.randrange(1, 5), "salt": rng.getrandbits(40), "steps": 14}
+    # end to end (last clause of the property): segwit spends built and signed by send_tx must be valid
+    kinds = ["p2wpkh", "p2wsh", "p2sh-p2wpkh", "p2sh-p2wsh"]
+    for i in range(96 if q else 1500):
+        yield "e2e_send", {"kind": kinds[i % 4], "signed": True, "salt": rng.getrandbits(48), "net": ["mainnet", "testnet", "regtest"][i % 3],
+                           "n_utxo": rng.choice([1, 1, 2, 3]), "vout_mode": rng.choice(["zero", "index", "random"]),
+                           "amount_mode": rng.choice(["plain", "hostile", "hostile", "huge"]), "fraction": rng.choice([1.0, 1.0, 0.5]),
+                           "fee": rng.choice([1000, 0, 999]), "version": rng.choice([1, 2]), "locktime": rng.choice([0, 5]),
+                           "flag": rng.choice(FLAGS), "recipient": rng.choice(["p2pkh", "segwit0"]), "change": "default",
+                           "m_n": rng.choice([[1, 1], [1, 2], [2, 2], [2, 3]])}
 
 
 def required(tier):
     return {"msg.decided": 5000, "msg.class.single_idx_ge_nout": 100, "msg.class.single_idx_lt_nout": 100,
-            "msg.class.acp": 1000, "msg.class.none": 500, "msg.class.nonempty_scriptsig": 2000, "vector.ok": 1}
+            "msg.class.acp": 1000, "msg.class.none": 500, "msg.class.nonempty_scriptsig": 2000, "vector.ok": 1,
+            "history.steps": 500, "history.same_prevouts_changed_rest": 300, "e2e.signed_decided": 60, "e2e.inputs_valid": 60,
+            "contract:witness_message.bip143": 60}
 
 
 _self = False
@@ -62,6 +77,13 @@ def run_case(kind, params, ctx):
         _selfcheck(ctx)
         ctx.nontrivial()
         ctx.nontrivial("ref-selfcheck")
+        return
+    if kind == "e2e_send":
+        from . import c16
+        c16.run_case("send", params, _E2E(ctx))
+        return
+    if kind == "history":
+        _history(ctx, params, wm)
         return
     rng = rng_for("C11", params["salt"])
     n_in, n_out = params["n_in"], params["n_out"]
@@ -101,6 +123,78 @@ def run_case(kind, params, ctx):
                 continue
             if got != exp:
                 ctx.violation(f"wrong/{cls}/{_which(got, exp, len(sc))}", f"n_in={n_in} n_out={n_out} idx={idx} flag={flag:#x}: field {_which(got, exp, len(sc))} differs")
+
+
+class _E2E:
+    """Adapter: runs the send_tx workload of C16 inside C11; only invalid SEGWIT signatures count here."""
+
+    def __init__(self, ctx):
+        self.ctx = ctx
+
+    def __getattr__(self, name):
+        return getattr(self.ctx, name)
+
+    def count(self, name, n=1):
+        m = {"send.signed_decided": "e2e.signed_decided", "kind.segwit.valid": "e2e.inputs_valid"}
+        if name in m:
+            self.ctx.count(m[name], n)
+
+    def violation(self, key, detail, sub=None):
+        if key.startswith("sig-invalid/segwit"):
+            self.ctx.violation("e2e/" + key, "send_tx signature over its BIP143 message is invalid for the spending transaction: " + detail)
+        else:
+            self.ctx.count("e2e.observation_of_other_property")
+
+
+def _history(ctx, params, wm):
+    rng = rng_for("C11h", params["salt"])
+    n_in, n_out = params["n_in"], params["n_out"]
+
+    def fresh_out():
+        return {"value": rng.getrandbits(40), "script": rand_bytes(rng, rng.choice([22, 25, 34])).hex()}
+    t = {"version": 2, "locktime": 0,
+         "vin": [{"txid": rand_bytes(rng, 32).hex(), "vout": rng.randrange(4), "script": "", "sequence": 0xFFFFFFFD} for _ in range(n_in)],
+         "vout": [fresh_out() for _ in range(n_out)], "witness": None}
+    sc = rand_bytes(rng, 25)
+    amount = rng.getrandbits(40)
+    flag = 1
+    idx = 0
+    for step in range(params["steps"]):
+        change = ["sequences", "outputs", "version", "locktime", "scriptcode", "amount", "flag", "index", "back"][step % 9] if step else "first"
+        if change == "sequences":
+            for i in t["vin"]:
+                i["sequence"] = rng.choice([0xFFFFFFFF, 0xFFFFFFFE, rng.getrandbits(32)])
+        elif change == "outputs":
+            t["vout"] = [fresh_out() for _ in range(rng.randrange(1, 5))]
+        elif change == "version":
+            t["version"] = rng.choice([1, 2, 3])
+        elif change == "locktime":
+            t["locktime"] = rng.getrandbits(32)
+        elif change == "scriptcode":
+            sc = rand_bytes(rng, rng.choice([25, 35, 71]))
+        elif change == "amount":
+            amount = rng.getrandbits(45)
+        elif change == "flag":
+            flag = rng.choice(FLAGS)
+        elif change == "index":
+            idx = rng.randrange(n_in)
+        elif change == "back":
+            flag = 1
+        txins = [txref.ser_vin(i) for i in t["vin"]]
+        txouts = [txref.ser_vout(o) for o in t["vout"]]
+        exp = rsh.bip143_preimage_fields(t, idx, sc, amount, flag)
+        ctx.count("history.steps")
+        if step:
+            ctx.count("history.same_prevouts_changed_rest")
+        ctx.seen("hist", (params["salt"], step))
+        try:
+            got = bytes(wm(txins, idx, amount, cs.encode(len(sc)) + sc, txouts, version=t["version"], locktime=t["locktime"], sighash_flag=flag))
+        except Exception as e:
+            ctx.violation(f"history/raises/after-{change}", f"step {step}: {type(e).__name__}: {e}")
+            continue
+        if got != exp:
+            ctx.violation(f"history/stale-or-wrong/{_which(got, exp, len(sc))}/after-change-of-{change}",
+                          f"step {step}: same prevouts as the previous call, {change} changed: field {_which(got, exp, len(sc))} differs from BIP143 (flag {flag:#x}, idx {idx})")
 
 
 def _which(got, exp, sclen):
